@@ -82,3 +82,6 @@ open Csproto
 #print axioms Csproto.Bridge.PackedEncFuncs.sizes_loop
 #print axioms Csproto.Bridge.PackedEncFuncs.write_loop
 #print axioms Csproto.Bridge.PackedEncFuncs.EncodePackedUInt64_refines
+#print axioms Csproto.Bridge.PackedEncFuncs.EncodePackedInt32_refines
+#print axioms Csproto.Bridge.PackedEncFuncs.EncodePackedInt64_refines
+#print axioms Csproto.Bridge.PackedEncFuncs.EncodePackedUInt32_refines
